@@ -417,7 +417,7 @@ pub fn run(ctx: &Ctx) -> Report {
     let mut rep = par_items(ctx, "C10", &work, |&(e, i), rep| {
         let (name, code, ds) = &named[i];
         let mut rng = Rng::derive(ctx.seed, crate::report::hash_of(&(0xC10u64, e, i as u64)));
-        let mut values = value_grid(*code, ctx.pick(8, 70, 300), &mut rng, ctx.pick(2, 20, 400));
+        let mut values = value_grid(*code, ctx.pick(8, 128, 300), &mut rng, ctx.pick(2, 60, 400));
         values.retain(|v| code_len(*code, *v) <= 2000);
         for (vi, v) in values.iter().enumerate() {
             for d in ds {
